@@ -10,13 +10,13 @@ import pl  # noqa: E402
 LEVEL = "exploration"
 TIME_DS = ["/BunchLength/data", "/BunchPopulation/data", "/BunchPosition/data", "/BunchProfile/data", "/CSR/Intensity/data",
            "/CSR/Spectrum/data", "/EnergyAverage/data", "/EnergyProfile/data", "/EnergySpread/data", "/WakePotential/data"]
-BASE = ["-s", 16, "-N", 8, "-T", 1.25, "--padding", 2,
+BASE = ["-N", 8, "-T", 1.25, "--padding", 2,
         "-I", 2e-3, "--InitialDistZoom", 0.8, "--PhaseSpaceShiftX", 1, "--PhaseSpaceShiftY", -1, "-d", 0.002]
 IMP = {"collimator": ["-G", 0.03, "--UseCSR", "false", "--CollimatorRadius", 0.002], "none": ["-G", 0.03, "--UseCSR", "false"], "csr": ["-G", 0.03]}
 
 
 def args_of(c, trackfile):
-    a = list(BASE) + IMP[c.get("imp", "collimator")] + ["-n", c["outstep"], "--SavePhaseSpace", c["save"], "--RenormalizeCharge", c["renorm"],
+    a = ["-s", c.get("n", 16)] + list(BASE) + IMP[c.get("imp", "collimator")] + ["-n", c["outstep"], "--SavePhaseSpace", c["save"], "--RenormalizeCharge", c["renorm"],
                       "--LinearRF", "true" if c["rf"] == "linear" else "false", "--verbose", "true" if c["verbose"] else "false"]
     if c["track"] is not None:
         a += ["--tracking", trackfile, "--FPTrack", c["track"]]
@@ -24,7 +24,7 @@ def args_of(c, trackfile):
 
 
 def phys_key(c):
-    return (c["renorm"], c["rf"], c.get("imp", "collimator"))
+    return (c["renorm"], c["rf"], c.get("imp", "collimator"), c.get("n", 16))
 
 
 def records(doc):
@@ -46,9 +46,9 @@ def run(res, tier):
     res.assumptions += [
         "all runs of one check use the FFTW wisdom created by a warm-up run (the property says: same wisdom)",
         "deterministic RF (no noise, no modulation); /Particles is compared only between runs with the same tracking file and model (deterministic models 0-2)",
-        "base run: 10 steps (8 per synchrotron period), 16x16 grid, zoomed start on a shifted grid, damping on; impedance in {collimator, none, shielded CSR}"]
+        "base run: 10 steps (8 per synchrotron period), 16x16 (and 15x15) grid, zoomed start on a shifted grid, damping on; impedance in {collimator, none, shielded CSR}"]
     exe = pl.build.build_bin("plain")
-    pl.warm(exe, [BASE + IMP[i] + ["-n", 1] for i in IMP], "c12warm")
+    pl.warm(exe, [["-s", n] + BASE + IMP[i] + ["-n", 1] for i in IMP for n in (16, 15)], "c12warm")
     wd = pl.workdir("c12")
     trackfile = os.path.join(wd, "track.txt")
     with open(trackfile, "w") as f:
@@ -57,22 +57,23 @@ def run(res, tier):
     saves = [0, 1, 2]
     tracks = [None, 0, 1, 2]
     if tier == "thorough":
-        cfgs = [dict(outstep=o, save=s, track=t, verbose=v, name=nm, renorm=r, rf=rf, imp=imp)
-                for o, s, t, v, nm, r, rf, imp in itertools.product(outsteps, saves, tracks, [0, 1], ["a", "b_other_name"], [-1, 0, 3], ["linear", "sin"], ["collimator", "none", "csr"])
-                if imp == "collimator" or (t in (None, 1) and nm == "a")]
+        cfgs = [dict(outstep=o, save=s, track=t, verbose=v, name=nm, renorm=r, rf=rf, imp=imp, n=n)
+                for o, s, t, v, nm, r, rf, imp, n in itertools.product(outsteps, saves, tracks, [0, 1], ["a", "b_other_name"], [-1, 0, 3], ["linear", "sin"], ["collimator", "none", "csr"], [16, 15])
+                if (imp == "collimator" and n == 16) or (t in (None, 1) and nm == "a" and (n == 16 or v == 0))]
     else:
         cfgs = []
-        for r, rf, imp in [(0, "linear", "collimator"), (3, "linear", "collimator"), (-1, "sin", "collimator"), (3, "linear", "none"), (2, "sin", "csr")]:
+        for r, rf, imp, n in [(0, "linear", "collimator", 16), (3, "linear", "collimator", 16), (-1, "sin", "collimator", 16), (3, "linear", "none", 16), (2, "sin", "csr", 16),
+                              (2, "linear", "csr", 15)]:
             for o, s in itertools.product(outsteps, saves):                       # full cadence product
-                cfgs.append(dict(outstep=o, save=s, track=None, verbose=0, name="a", renorm=r, rf=rf, imp=imp))
+                cfgs.append(dict(outstep=o, save=s, track=None, verbose=0, name="a", renorm=r, rf=rf, imp=imp, n=n))
             for t in [0, 1, 2]:                                                   # single deviations
-                cfgs.append(dict(outstep=2, save=1, track=t, verbose=0, name="a", renorm=r, rf=rf, imp=imp))
-            cfgs.append(dict(outstep=2, save=1, track=None, verbose=1, name="a", renorm=r, rf=rf, imp=imp))
-            cfgs.append(dict(outstep=3, save=2, track=1, verbose=1, name="b_other_name", renorm=r, rf=rf, imp=imp))
+                cfgs.append(dict(outstep=2, save=1, track=t, verbose=0, name="a", renorm=r, rf=rf, imp=imp, n=n))
+            cfgs.append(dict(outstep=2, save=1, track=None, verbose=1, name="a", renorm=r, rf=rf, imp=imp, n=n))
+            cfgs.append(dict(outstep=3, save=2, track=1, verbose=1, name="b_other_name", renorm=r, rf=rf, imp=imp, n=n))
     # the reference of every physics key: every step written, every phase space saved
     refs = {}
     for k in sorted(set(phys_key(c) for c in cfgs)):
-        refs[k] = dict(outstep=1, save=1, track=None, verbose=0, name="ref", renorm=k[0], rf=k[1], imp=k[2])
+        refs[k] = dict(outstep=1, save=1, track=None, verbose=0, name="ref", renorm=k[0], rf=k[1], imp=k[2], n=k[3])
 
     def do(ic):
         i, c, rep = ic
